@@ -1,20 +1,22 @@
 #!/usr/bin/env python3
-"""Development aid (not a registered check): property-preserving rewrites of /repo on which no check may raise an alarm.
+"""Development aid (not a registered check): property-preserving rewrites of the library on which no check may raise an alarm.
 
-  benign.py make <name> <python-file-with-EDITS>   apply textual edits to every file under include/ and development/ that
-                                                   contains the pattern, store `git diff` as /verif/benign/<name>/patch.diff, undo
-  benign.py run <name> [ids...]                    apply the stored patch to /repo, check that the test suite still builds and
-                                                   passes, run the quick checks named (default: all), undo, report alarms
+  benign.py make <name> <python-file-with-EDITS>   apply textual edits to every file under include/ and development/ of /repo that contains the
+                                                   pattern, store `git diff` as /verif/benign/<name>/patch.diff, undo
+  benign.py run <name>... [--ids C01,C02]          for each: a scratch worktree of /repo with the stored patch applied; the test suite must still build
+                                                   and pass; every quick check (or the ones named) is run against the worktree (VERIF_REPO), evidence
+                                                   redirected; alarms are reported. C17 (which regenerates coq/Generated/InitFacts.v) runs last, alone.
 """
-import sys, os, re, subprocess, json, glob, time
+import sys, os, re, subprocess, json, glob, time, tempfile, shutil, concurrent.futures
 os.environ.setdefault("VERIF_EVIDENCE_DIR", "/var/tmp/verif-scratch-evidence"); os.makedirs(os.environ["VERIF_EVIDENCE_DIR"], exist_ok=True)   # never overwrite /verif/evidence from a run against a modified tree
 REPO = "/repo"; VERIF = os.path.dirname(os.path.dirname(os.path.abspath(__file__)))
-def sh(cmd, cwd=None, timeout=3600):
-    r = subprocess.run(cmd, shell=True, cwd=cwd, capture_output=True, text=True, timeout=timeout); return r.returncode, r.stdout + r.stderr
-def clean():
-    rc, out = sh("git -C %s status --porcelain --untracked-files=no" % REPO); assert out.strip() == "", "/repo dirty: " + out
+def sh(cmd, cwd=None, timeout=3600, env=None):
+    try:
+        r = subprocess.run(cmd, shell=True, cwd=cwd, capture_output=True, text=True, timeout=timeout, env=env); return r.returncode, r.stdout + r.stderr
+    except subprocess.TimeoutExpired: return -9, "timeout"
 def make(name, edits):
-    clean(); n = 0
+    rc, out = sh("git -C %s status --porcelain --untracked-files=no" % REPO); assert out.strip() == "", "/repo dirty: " + out
+    n = 0
     files = [f for pat in ("include/**/*.hpp", "development/**/*.hpp", "development/**/*.inl") for f in glob.glob(os.path.join(REPO, pat), recursive=True)]
     for f in files:
         t = open(f, encoding="utf-8", errors="surrogateescape").read(); t0 = t
@@ -24,26 +26,47 @@ def make(name, edits):
     d = os.path.join(VERIF, "benign", name); os.makedirs(d, exist_ok=True)
     rc, out = sh("git -C %s diff" % REPO); open(os.path.join(d, "patch.diff"), "w").write(out)
     sh("git -C %s checkout -- ." % REPO); print(name, "files changed:", n, "diff lines:", len(out.splitlines()))
-def run(name, ids):
-    clean(); d = os.path.join(VERIF, "benign", name); res = {}
-    rc, out = sh("git -C %s apply %s/patch.diff" % (REPO, d)); assert rc == 0, out
-    try:
-        rc, out = sh("rm -rf /var/tmp/benign_build && cmake -S %s -B /var/tmp/benign_build -G Ninja >/dev/null && cmake --build /var/tmp/benign_build 2>&1 | tail -3; rm -rf /var/tmp/benign_build" % REPO)
-        res["suite"] = "Status: SUCCESS" in out
-        if not res["suite"]: res["suite_tail"] = out[-300:]
+def check(pid, wt):
+    rc, out = sh("./check %s --tier quick" % pid, cwd=VERIF, env=dict(os.environ, VERIF_REPO=wt, VERIF_JOBS="6"))
+    v = [l for l in out.splitlines() if l.startswith("VIOLATION")]
+    if rc == 0 and not v: return None
+    reason = ""
+    try: reason = json.load(open(v[0].split("replay=")[1].split()[0])).get("reason", "")[:400]
+    except Exception: reason = out[-400:]
+    return dict(rc=rc, v=v[:1], reason=reason)
+def prepare(name):
+    d = os.path.join(VERIF, "benign", name); res = dict(name=name)
+    wt = tempfile.mkdtemp(prefix="benwt.", dir="/var/tmp"); os.rmdir(wt); res["wt"] = wt
+    rc, out = sh("git -C %s worktree add -q --detach %s HEAD" % (REPO, wt)); assert rc == 0, out
+    rc, out = sh("git apply %s/patch.diff" % d, cwd=wt); res["applies"] = rc == 0
+    if rc != 0: res["apply_error"] = out[-300:]; return res
+    rc, out = sh("cmake -S . -B _build -G Ninja >/dev/null && cmake --build _build 2>&1 | tail -4; rm -rf _build", cwd=wt, timeout=2400)
+    res["suite"] = "Status: SUCCESS" in out
+    if not res["suite"]: res["suite_tail"] = out[-300:]
+    # the shipped header must still be the amalgamation of the sources
+    return res
+def run_one(name, ids):
+    res = prepare(name)
+    if res.get("applies") and res.get("suite"):
+        res["alarms"] = {}
         for pid in ids:
-            t0 = time.time(); rc, out = sh("./check %s --tier quick" % pid, cwd=VERIF)
-            v = [l for l in out.splitlines() if l.startswith("VIOLATION")]
-            if rc != 0 or v:
-                reason = ""
-                try: reason = json.load(open(v[0].split("replay=")[1].split()[0])).get("reason", "")[:300]
-                except Exception: reason = out[-300:]
-                res[pid] = dict(rc=rc, v=v[:1], reason=reason)
-    finally:
-        sh("git -C %s checkout -- ." % REPO); sh("python3 %s/tools/initfacts.py" % VERIF)
-    print(json.dumps({name: res}, indent=1)); return res
+            if pid == "C17": continue
+            a = check(pid, res["wt"])
+            if a: res["alarms"][pid] = a
+    return res
+def main():
+    args = sys.argv[2:]; ids = ["C%02d" % i for i in range(1, 21)]
+    if "--ids" in args: k = args.index("--ids"); ids = args[k + 1].split(","); args = args[:k] + args[k + 2:]
+    with concurrent.futures.ThreadPoolExecutor(max_workers=int(os.environ.get("BENIGN_PAR", "3"))) as ex:
+        results = list(ex.map(lambda n: run_one(n, ids), args))
+    for res in results:
+        if "C17" in ids and res.get("applies") and res.get("suite"):
+            a = check("C17", res["wt"])
+            if a: res["alarms"]["C17"] = a
+        sh("git -C %s worktree remove --force %s" % (REPO, res["wt"])); shutil.rmtree(res["wt"], ignore_errors=True)
+        res.pop("wt", None); print(json.dumps(res), flush=True)
+    sh("python3 %s/tools/initfacts.py" % VERIF)
 if __name__ == "__main__":
     if sys.argv[1] == "make":
         ns = {}; exec(open(sys.argv[3]).read(), ns); make(sys.argv[2], ns["EDITS"])
-    elif sys.argv[1] == "run":
-        ids = sys.argv[3:] or ["C%02d" % i for i in range(1, 21)]; run(sys.argv[2], ids)
+    elif sys.argv[1] == "run": main()
